@@ -605,7 +605,77 @@ def r10_setters_overwrite(ctx):
     ctx.ob('C19.R10', 'setters-overwrite', not bad, '', '%d insert(s), %d first-wins write(s) on keyed component fields' % (n_ins, len(bad)))
 
 
+IDENTITY_CONVERSIONS = {'to_owned', 'into', 'to_string', 'from', 'clone', 'into_iter', 'iter', 'map', 'collect', 'as_str', 'as_ref', 'deref', 'borrow',
+                        'cloned', 'copied', 'to_vec', 'into_boxed_str', 'into_string', 'as_mut', 'caller', 'file', 'line', 'column', 'new'}
+
+
+def r11_strings_recorded_as_given(ctx, rid='C19.R11', only_field=None, lead=''):
+    ctx.rule(rid, lead + 'P7 provenance: every string that pavex::blueprint stores in a value of the blueprint schema (a path prefix, a domain '
+             'guard, the module an import is relative to, the coordinates of an annotation ..) reaches the schema through identity '
+             'conversions only (`into`, `to_owned`, `to_string`, `clone`, collecting a list). Validation and normalisation are the '
+             'COMPILER\'s job and run on what the user wrote: a `trim`, a case fold or a `replace` in the builder means the compiler never sees '
+             'the registered text — `pavex.dev..` trimmed to `pavex.dev` is accepted although it has an empty label.')
+    n = 0
+    for b in ctx.fb.bodies('pavex'):
+        if b.is_promoted or '::blueprint::' not in b.nid:
+            continue
+        defs = None
+        for bb, j, st in b.all_assigns():
+            rv = st['rv']
+            if rv['k'] != 'agg' or rv.get('ak') != 'adt' or not strip_generics(rv['adt']).startswith('pavex_bp_schema::'):
+                continue
+            for f, o in zip(rv.get('fields', []), rv['ops']):
+                pl = op_place(o)
+                if pl is None:
+                    continue
+                ty = b.locals[pl['l']]
+                if 'alloc::string::String' not in ty and not ty.endswith('str'):
+                    continue
+                name = '%s.%s' % (strip_generics(rv['adt']).split('::')[-1], f)
+                if only_field is not None and name != only_field:
+                    continue
+                defs = defs or Defs(b)
+                sl, _ = backward_slice(b, pl['l'], defs)
+                cs = sorted({(c or '?').split('::')[-1].split('<')[0] for c, _, _ in slice_calls(sl)})
+                bad = [c for c in cs if c not in IDENTITY_CONVERSIONS]
+                n += 1
+                ctx.ob(rid, 'recorded-as-given|%s|%s' % (b.nid.replace('pavex::blueprint::', ''), name), not bad, b.loc(bb, st),
+                       '%s is built from the argument through %s%s' % (name, cs or 'a plain move', '' if not bad else ' — NOT identity conversions: %s' % bad))
+    ctx.floor(rid, 'strings stored in schema values by pavex::blueprint', n, 1 if only_field else 6)
+
+
+TRUNCATING = {'map_while', 'take_while', 'take', 'skip', 'skip_while', 'step_by', 'nth', 'last', 'next', 'find', 'find_map', 'first', 'get', 'split_first',
+              'split_last', 'rev', 'position', 'fuse', 'scan', 'split_at', 'truncate', 'pop', 'nth_back', 'next_back', 'rfind', 'max', 'min', 'max_by_key', 'min_by_key'}
+
+
+def r12_every_attribute_is_offered_to_the_parser(ctx):
+    ctx.rule('C19.R12', 'P7 provenance of the reader\'s input: `pavexc_annotations::parser::parse_pavex_attributes` hands `pavexc_attr_parser::parse` the '
+             'attributes of an item selected BY KIND only (`filter_map` / `filter` over the whole list). Nothing between the attribute list and '
+             'the parser stops early or picks by position (`map_while`, `take_while`, `take`, `skip`, `next`, `first` ..): the pavex attribute of a '
+             'method in a `#[methods]` block comes AFTER the user\'s own `#[must_use]` / `#[inline]`, and an item whose annotation is not seen is '
+             'dropped from the blueprint without a diagnostic.')
+    bodies = [b for b in ctx.fb.bodies('pavexc_annotations') if not b.is_promoted and b.nid == b.nroot and b.nid.endswith('parser::parse_pavex_attributes')]
+    if not ctx.need('C19.R12', 'pavexc_annotations::parser::parse_pavex_attributes', bodies):
+        return
+    from ..inline import inlined
+    b = inlined(ctx.fb, bodies[0], crate='pavexc_annotations', closures=False)
+    defs = Defs(b)
+    sinks = [(bb, t) for bb, t in b.calls() if strip_generics(callee(t) or '').endswith('pavexc_attr_parser::parse')]
+    if not ctx.need('C19.R12', 'call of pavexc_attr_parser::parse in parse_pavex_attributes', sinks):
+        return
+    for i, (bb, t) in enumerate(sinks):
+        pl = op_place(t['args'][0])
+        sl, locs = backward_slice(b, pl['l'], defs) if pl is not None else ([], set())
+        from_param = any(1 <= l <= b.raw['argc'] for l in locs)
+        cs = sorted({(c or '?').split('::')[-1].split('<')[0] for c, _, _ in slice_calls(sl)})
+        bad = [c for c in cs if c in TRUNCATING]
+        ctx.ob('C19.R12', 'whole-attribute-list|#%d' % (i + 1), from_param and not bad, b.loc(bb, t),
+               'the parser is fed from the attribute list parameter: %s, through %s%s' % (from_param, cs, '' if not bad else ' — truncating / positional adaptor(s): %s' % bad))
+
+
 def check(ctx):
+    r12_every_attribute_is_offered_to_the_parser(ctx)
+    r11_strings_recorded_as_given(ctx)
     r10_setters_overwrite(ctx)
     r9_flags_are_written_as_given(ctx)
     r8_blueprint_file_is_current(ctx)
